@@ -335,13 +335,31 @@ def wDupSlash : PathPair := ⟨"slash", [[47, 97, 47, 47, 98]], [47, 97, 47, 47,
 /-- pattern `/%61`: target `/%61` matches, target `/a` does not -/
 def wPctEnc : PathPair := ⟨"pct", [[47, 37, 54, 49]], [47, 97], [47, 37, 54, 49], [47, 97], [47, 97]⟩
 
+/-- pattern `/sp%20ace` (no star): the request `/sp%20acex` matches — the lock-step loop stops
+    when the pattern is used up and ignores the rest of the path (a `path` line: p, e) -/
+def wEscRest : PathPair := ⟨"path", [[47, 115, 112, 37, 50, 48, 97, 99, 101]], [47, 115, 112, 32, 97, 99, 101], [47, 115, 112, 37, 50, 48, 97, 99, 101], [47, 115, 112, 32, 97, 99, 101, 120], [47, 115, 112, 37, 50, 48, 97, 99, 101, 120]⟩
+/-- pattern `/k%20*z`: `/k%20axz` matches, the equivalent `/k%20ax%7A` does not (span terminator
+    searched in the raw text) -/
+def wEscTerm : PathPair := ⟨"pct", [[47, 107, 37, 50, 48, 42, 122]], [47, 107, 32, 97, 120, 122], [47, 107, 37, 50, 48, 97, 120, 122], [47, 107, 32, 97, 120, 122], [47, 107, 37, 50, 48, 97, 120, 37, 55, 65]⟩
+/-- pattern `/%*/y`: `/./dx/y` matches, the equivalent `/%2e/dx/y` does not (CleanPath runs over
+    the escaped text) -/
+def wEscDot : PathPair := ⟨"pct", [[47, 37, 42, 47, 121]], [47, 46, 47, 100, 120, 47, 121], [47, 46, 47, 100, 120, 47, 121], [47, 46, 47, 100, 120, 47, 121], [47, 37, 50, 101, 47, 100, 120, 47, 121]⟩
+/-- pattern `/foo%2fbar/baz`: canonical request and the spelling with an escape in the LAST three
+    bytes of the path (boundary `len(escapedPath) >= iPath+3`) -/
+def wEscEnd : PathPair := ⟨"pct", [[47, 102, 111, 111, 37, 50, 102, 98, 97, 114, 47, 98, 97, 122]], [47, 102, 111, 111, 47, 98, 97, 114, 47, 98, 97, 122], [47, 102, 111, 111, 37, 50, 70, 98, 97, 114, 47, 98, 97, 122], [47, 102, 111, 111, 47, 98, 97, 114, 47, 98, 97, 122], [47, 102, 111, 111, 37, 50, 70, 98, 97, 114, 47, 98, 97, 37, 55, 65]⟩
+
 def encodeList (l : List Bytes) : String :=
   if l.isEmpty then "." else ",".intercalate (l.map Hex.encode)
 
 def PathPair.line (w : PathPair) : String :=
   " ".intercalate ["C06", "pathpair", w.kind, encodeList w.pats, Hex.encode w.p1, Hex.encode w.e1, Hex.encode w.p2, Hex.encode w.e2]
 
+/-- the second request of a pair as a `path` line -/
+def PathPair.pathLine (w : PathPair) : String :=
+  " ".intercalate ["C06", "path", encodeList w.pats, Hex.encode w.p2, Hex.encode w.e2]
+
 /-- counter-example lines replayed on the implementation on every run (see Witness.lean) -/
-def witnessLines : List String := [wDupSlash.line, wPctEnc.line]
+def witnessLines : List String :=
+  [wDupSlash.line, wPctEnc.line, wEscRest.pathLine, wEscTerm.line, wEscTerm.pathLine, wEscDot.line, wEscDot.pathLine, wEscEnd.line]
 
 end CaddyModel.C06
